@@ -571,3 +571,94 @@ Lemma u_rejects_negative_ex : forall fuel v, v < 0 ->
   exists code, unsigned_leb128_encode fuel v = Diag code.
 Proof. intros fuel v H. eexists. apply u_rejects_negative, H. Qed.
 
+
+(* ------------------------------------------------------------------ iterators without a terminating byte *)
+Definition cont_byte (b : Z) : Prop := 128 <= b < 256.
+
+Lemma udec_loop_truncated : forall l fuel result shift,
+  Forall cont_byte l -> 0 <= shift -> (length l < fuel)%nat ->
+  unsigned_leb128_decode_loop1 fuel l result shift = Internal StopIteration.
+Proof.
+  induction l as [|b r IH]; intros fuel result shift Hc Hs Hf;
+    (destruct fuel as [|f]; [cbn [length] in Hf; lia|]); [reflexivity|].
+  cbn [unsigned_leb128_decode_loop1]. guard_ok.
+  inversion Hc as [|? ? Hb Hr]; subst. unfold cont_byte in Hb.
+  rewrite cont_facts by lia. destruct (b <? 128) eqn:E; [lia|].
+  apply IH; [exact Hr | lia | cbn [length] in Hf; lia].
+Qed.
+
+Lemma sdec_loop_truncated : forall l fuel b0 result shift,
+  Forall cont_byte l -> 0 <= shift -> (length l < fuel)%nat ->
+  signed_leb128_decode_loop1 fuel b0 l result shift = Internal StopIteration.
+Proof.
+  induction l as [|b r IH]; intros fuel b0 result shift Hc Hs Hf;
+    (destruct fuel as [|f]; [cbn [length] in Hf; lia|]); [reflexivity|].
+  cbn [signed_leb128_decode_loop1]. guard_ok.
+  inversion Hc as [|? ? Hb Hr]; subst. unfold cont_byte in Hb.
+  rewrite cont_facts by lia. destruct (b <? 128) eqn:E; [lia|].
+  apply IH; [exact Hr | lia | cbn [length] in Hf; lia].
+Qed.
+
+Lemma decode_truncated fuel l : Forall cont_byte l -> (length l < fuel)%nat ->
+  unsigned_leb128_decode fuel l = Internal StopIteration /\
+  signed_leb128_decode fuel l = Internal StopIteration.
+Proof.
+  intros Hc Hf. unfold unsigned_leb128_decode, signed_leb128_decode.
+  rewrite udec_loop_truncated, sdec_loop_truncated by (try assumption; lia). split; reflexivity.
+Qed.
+
+(* every byte string is either all continuation bytes or starts with exactly one well-formed encoding *)
+Lemma bytes_split : forall data, Forall (fun b => 0 <= b < 256) data ->
+  Forall cont_byte data \/ exists l rest, data = l ++ rest /\ wf_leb l.
+Proof.
+  induction data as [|b r IH]; intros Hb; [left; constructor|].
+  inversion Hb as [|? ? Hb0 Hr]; subst.
+  destruct (Z_lt_ge_dec b 128) as [Hlt|Hge].
+  - right. exists [b], r. split; [reflexivity|]. apply wf_single. lia.
+  - destruct (IH Hr) as [Hall|(l & rest & -> & Hwf)].
+    + left. constructor; [unfold cont_byte; lia|exact Hall].
+    + right. exists (b :: l), rest. split; [reflexivity|].
+      destruct l as [|c l]; [destruct Hwf|]. apply wf_cons. split; [lia|exact Hwf].
+Qed.
+
+(* total characterisation of both decoders on iterators over bytes *)
+Lemma decode_total fuel data : Forall (fun b => 0 <= b < 256) data -> (length data < fuel)%nat ->
+  (exists l rest, data = l ++ rest /\ wf_leb l /\
+     unsigned_leb128_decode fuel data = Ok (uleb_value l, rest) /\
+     signed_leb128_decode fuel data = Ok (sleb_value l, rest)) \/
+  (Forall cont_byte data /\
+     unsigned_leb128_decode fuel data = Internal StopIteration /\
+     signed_leb128_decode fuel data = Internal StopIteration).
+Proof.
+  intros Hb Hf. destruct (bytes_split data Hb) as [Hall|(l & rest & -> & Hwf)].
+  - right. split; [exact Hall|]. apply decode_truncated; assumption.
+  - left. exists l, rest. rewrite app_length in Hf.
+    repeat split; try assumption; [apply u_decode_ok|apply s_decode_ok]; try assumption; lia.
+Qed.
+
+(* the split is unique: the well-formed prefix is determined by the data *)
+Lemma wf_prefix_unique : forall l1 l2 r1 r2, wf_leb l1 -> wf_leb l2 -> l1 ++ r1 = l2 ++ r2 -> l1 = l2 /\ r1 = r2.
+Proof.
+  induction l1 as [|b l1 IH]; intros l2 r1 r2 H1 H2 E; [destruct H1|].
+  destruct l2 as [|c l2]; [destruct H2|]. cbn [app] in E. injection E as <- E.
+  destruct l1 as [|b1 l1], l2 as [|c1 l2].
+  - cbn [app] in E. now subst.
+  - pose proof (proj1 (wf_single _) H1). pose proof (proj1 (wf_cons _ _ _) H2). lia.
+  - pose proof (proj1 (wf_single _) H2). pose proof (proj1 (wf_cons _ _ _) H1). lia.
+  - pose proof (proj1 (wf_cons _ _ _) H1) as [_ W1]. pose proof (proj1 (wf_cons _ _ _) H2) as [_ W2].
+    destruct (IH (c1 :: l2) r1 r2 W1 W2 E) as [-> ->]. split; reflexivity.
+Qed.
+
+(* converse: a decoder that returns a value on a byte iterator has consumed exactly one well-formed
+   encoding and returned its specification value *)
+Lemma decode_ok_inv fuel data v rest : Forall (fun b => 0 <= b < 256) data -> (length data < fuel)%nat ->
+  (unsigned_leb128_decode fuel data = Ok (v, rest) ->
+     exists l, data = l ++ rest /\ wf_leb l /\ v = uleb_value l) /\
+  (signed_leb128_decode fuel data = Ok (v, rest) ->
+     exists l, data = l ++ rest /\ wf_leb l /\ v = sleb_value l).
+Proof.
+  intros Hb Hf.
+  destruct (decode_total fuel data Hb Hf) as [(l & r & -> & Hwf & Hu & Hs)|(_ & Hu & Hs)];
+    split; intros H; try (rewrite Hu in H); try (rewrite Hs in H); try discriminate;
+    injection H as <- <-; exists l; repeat split; assumption.
+Qed.
